@@ -51,25 +51,25 @@ type world struct {
 	c *simkit.Ctx
 
 	// configuration (from knobs)
-	nShards         int
-	minShard        int
-	minMeta         int
-	consShard       int
-	consMeta        int
-	hysteresisPct   int
-	adaptivity      bool
-	crossShard      bool
-	fixEpoch        uint32
-	balanceEpoch    uint32
-	maxNodesCfg     []config.MaxNodesChangeConfig
-	rater           bool
-	chances         []uint32
-	startRating     uint32
-	doubleNode      int
-	permuteBody     bool
-	allowBelowMin   bool
-	salt            string
-	marsh           marshal.Marshalizer
+	nShards       int
+	minShard      int
+	minMeta       int
+	consShard     int
+	consMeta      int
+	hysteresisPct int
+	adaptivity    bool
+	crossShard    bool
+	fixEpoch      uint32
+	balanceEpoch  uint32
+	maxNodesCfg   []config.MaxNodesChangeConfig
+	rater         bool
+	chances       []uint32
+	startRating   uint32
+	doubleNode    int
+	permuteBody   bool
+	allowBelowMin bool
+	salt          string
+	marsh         marshal.Marshalizer
 
 	nodes []*node
 
@@ -695,7 +695,6 @@ func (w *world) restart(n *node, useOldKey bool, fault string, faultAt int) {
 	if err != nil && c.Faults["get_error"] > getsFailed {
 		c.Probe("restart-load-failed-then-retried")
 		c.Eventf("restart node=%d failed under get_error: retry", n.id)
-		n.loadExcluded = w.epoch
 		err = w.restartNode(n, key)
 	}
 	c.StepsDone++
